@@ -80,6 +80,13 @@ CASES = [
     ("range: an out-of-range `if` loses its else block", "src/formatters/stmt.rs", "                        .with_else_if(else_if)\n                        .with_else(else_block),", "                        .with_else_if(else_if)\n                        .with_else(None),", "range", "default", "C09.stmt_blocks_only"),
     ("range (blocks are unconstrained by this contract): an out-of-range local function is returned without visiting its block", "src/formatters/stmt.rs", "                let body = local_function.body().to_owned().with_block(block);\n                Stmt::LocalFunction(local_function.to_owned().with_body(body))", "                Stmt::LocalFunction(local_function.to_owned())", "range", "default", "ok"),
     ("range (blocks are unconstrained by this contract): an out-of-range `while` is returned without visiting its block", "src/formatters/stmt.rs", "                Stmt::While(while_block.to_owned().with_block(block))", "                Stmt::While(while_block.to_owned())", "range", "default", "ok"),
+    ("harmless: format_while_block chooses the `while` token with if / else instead of a match on a bool", "src/formatters/stmt.rs",
+     "    let while_token = match require_multiline_expression {\n        true => fmt_symbol!(ctx, while_block.while_token(), \"while\", shape)\n            .update_trailing_trivia(FormatTriviaType::Append(vec![create_newline_trivia(ctx)])),\n        false => singleline_while_token,\n    }\n    .update_leading_trivia(FormatTriviaType::Append(leading_trivia.to_owned()));",
+     "    let while_token = if require_multiline_expression {\n        fmt_symbol!(ctx, while_block.while_token(), \"while\", shape)\n            .update_trailing_trivia(FormatTriviaType::Append(vec![create_newline_trivia(ctx)]))\n    } else {\n        singleline_while_token\n    };\n    let while_token =\n        while_token.update_leading_trivia(FormatTriviaType::Append(leading_trivia.to_owned()));", "bodies", "default", "ok"),
+    ("harmless: format_do_block formats the end token before the block and renames its locals", "src/formatters/stmt.rs",
+     "    let block_shape = shape.reset().increment_block_indent();\n    let block = format_block(ctx, do_block.block(), block_shape);\n    let end_token = format_end_token(\n        ctx,\n        do_block.end_token(),\n        EndTokenType::IndentComments,\n        shape,\n    )\n    .update_trivia(leading_trivia, trailing_trivia);\n\n    do_block\n        .to_owned()\n        .with_do_token(do_token)\n        .with_block(block)\n        .with_end_token(end_token)",
+     "    let closing = format_end_token(\n        ctx,\n        do_block.end_token(),\n        EndTokenType::IndentComments,\n        shape,\n    )\n    .update_trivia(leading_trivia, trailing_trivia);\n    let inner_shape = shape.reset().increment_block_indent();\n    let body = format_block(ctx, do_block.block(), inner_shape);\n\n    do_block\n        .to_owned()\n        .with_block(body)\n        .with_do_token(do_token)\n        .with_end_token(closing)", "bodies", "default", "ok"),
+    ("header: a comment behind `while` no longer forces the multiline header", "src/formatters/stmt.rs", "    let require_multiline_expression = singleline_shape.over_budget()\n        || while_block\n            .while_token()\n            .has_trailing_comments(CommentSearch::All)\n        || while_block", "    let require_multiline_expression = singleline_shape.over_budget()\n        || while_block", "bodies", "default", "C01.header_keyword_closed"),
     # a predicate moved into a new helper next to the function: the helper is inlined (gen.InlineHelper) and verified as part of the caller
     ("helper: the sugar decision moved into a helper that forgets the Input exception", FU, [FA_DOC, FA_STR, FA_TAB], [HELPER_BAD + FA_DOC, FA_STR_H, FA_TAB_H], "args", "default", "C11.input_keeps_form"),
     ("harmless: the sugar decision moved into a helper (with a binding and an early return)", FU, [FA_DOC, FA_STR, FA_TAB], [HELPER_OK + FA_DOC, FA_STR_H, FA_TAB_H], "args", "default", "ok"),
